@@ -192,7 +192,7 @@ void h_Evolve(void){
 }
 
 /* ======== C05: expectation values and x-interpolation (src/SQuIDS.cpp:260-348) =================================================== */
-enum { K_H0=40, K_MUL, K_EVOL, K_FASTEVOL, K_DOT, K_PREPAVG, K_ADDRR, K_BUFSIZE };
+enum { K_H0=40, K_MUL, K_EVOL, K_FASTEVOL, K_DOT, K_PREPAVG, K_ADDRR, K_BUFSIZE, K_COMB };
 struct evbuf { struct SU_vector state; struct SU_vector op; };                 /* SQuIDS::expectationValueDBuffer */
 double* g_x; unsigned g_nxgrid;
 /* std::lower_bound on the node grid: ASSUMED contract for a sorted range: smallest k with !(x[k]<xi), or n */
@@ -205,8 +205,19 @@ static void op_assign_evol(struct SU_vector* target, const struct SU_vector* h0,
 static void op_assign_fastevol(struct SU_vector* target, const struct SU_vector* a, const double* buf, int w){ LOG(K_FASTEVOL,0,0,0.0,target,a,buf,w,0.0); }
 static double op_dot(const struct SU_vector* a, const struct SU_vector* b){ double v=nondet_double(); LOG(K_DOT,0,0,0.0,a,b,0,0,v); return v; }
 static void op_prepare_avg(const struct SU_vector* h0, double* buf, double tau, double scale, void* avr){ LOG(K_PREPAVG,0,0,tau,h0,buf,avr,0,scale); }
+static double g_evolbuf[8];
+/* new double[h0.GetEvolveBufferSize()]: a buffer large enough for that operator (logged with the operator it was sized for) */
+static double* op_evolbuf(const struct SU_vector* h0){ LOG(K_BUFSIZE,0,0,0.0,h0,g_evolbuf,0,0,0.0); return g_evolbuf; }
+/* d1*f1 + d2*f2 of the averaging overload: logged (two entries), value arbitrary: the arithmetic is a one-line Layer-2 fact */
+static double op_comb(double d1, double f1, double d2, double f2){ double v=nondet_double(); LOG(K_COMB,0,0,d1,0,0,0,0,f1); LOG(K_COMB,1,0,d2,0,0,0,0,f2); lg[nlog-1].w=1; return v; }
 #undef SQ_RET
 #define SQ_RET 0.0
+double SQuIDS_GetExpectationValueD_avg(const struct SQuIDS* self, const struct SU_vector* op, unsigned int nrh, double xi, struct evbuf* buf, double scale, void* avr){
+//@BODY file=src/SQuIDS.cpp sig=/double\s+SQuIDS::GetExpectationValueD\s*\(\s*const\s+SU_vector&\s*op\s*,\s*unsigned\s+int\s+nrh\s*,\s*double\s+xi\s*,\s*SQuIDS::expectationValueDBuffer&\s*buf\s*,\s*double\s+scale/ rules=common,squids_c05,squids_members
+}
+double SQuIDS_GetExpectationValue_avg(const struct SQuIDS* self, const struct SU_vector* op, unsigned int nrh, unsigned int i, double scale, void* avr){
+//@BODY file=src/SQuIDS.cpp sig=/double\s+SQuIDS::GetExpectationValue\s*\(\s*SU_vector\s+op\s*,\s*unsigned\s+int\s+nrh\s*,\s*unsigned\s+int\s+i\s*,\s*double\s+scale/ rules=common,squids_c05,squids_members
+}
 double SQuIDS_GetExpectationValueD(const struct SQuIDS* self, const struct SU_vector* op, unsigned int nrh, double xi, struct evbuf* buf){
 //@BODY file=src/SQuIDS.cpp sig=/double\s+SQuIDS::GetExpectationValueD\s*\(\s*const\s+SU_vector&\s*op\s*,\s*unsigned\s+int\s+nrh\s*,\s*double\s+xi\s*,\s*SQuIDS::expectationValueDBuffer&\s*buf\s*\)/ rules=common,squids_c05,squids_members
 }
@@ -244,6 +255,37 @@ void h_GetExpectationValueD(void){
     __CPROVER_assert(lg[3].a==&buf.op && lg[3].b==lg[2].a && lg[3].c==&op && SQ_SAME(lg[3].t,S.t-S.t_ini) && lg[3].w==0, "C05: the operator is evolved by H0 over t-t_ini");
     __CPROVER_assert(lg[4].a==&buf.state && lg[4].b==&buf.op && SQ_SAME(r,lg[4].v), "C05: the result is the scalar product of the interpolated state and the evolved operator");
   } else __CPROVER_assert(nlog==0, "C05: nothing is evaluated for a rejected x");
+  __CPROVER_assert(0,"REACH end of harness");
+}
+/* averaging overloads: the same bracketing / node, H0 at x itself (at the node's x), PrepareEvolve with (t-t_ini, scale, avr) on that H0 into a buffer sized for it,
+ * the operator evolved with that buffer, result f1*Tr(op' rho_i) + f2*Tr(op' rho_{i+1}) */
+void h_GetExpectationValueD_avg(void){
+  struct SQuIDS S; double xi; mk_grid(&S,&xi); struct SU_vector op; struct evbuf buf; unsigned nrh=nondet_unsigned(); __CPROVER_assume(nrh<NRB);
+  double scale=nondet_double(); int avr_obj; 
+  double r=SQuIDS_GetExpectationValueD_avg(&S,&op,nrh,xi,&buf,scale,&avr_obj);
+  __CPROVER_assert((sq_thrown==1) == (xi<S.x[0] || xi>S.x[S.nx-1]), "C05: averaging form: an x outside the node range is reported as an error, an x inside is answered");
+  if(sq_thrown==0){
+    __CPROVER_assert(nlog==11 && lg[0].kind==K_MUL && lg[1].kind==K_MUL && lg[2].kind==K_H0 && lg[3].kind==K_BUFSIZE && lg[4].kind==K_H0 && lg[5].kind==K_PREPAVG && lg[6].kind==K_FASTEVOL
+                     && lg[7].kind==K_DOT && lg[8].kind==K_DOT && lg[9].kind==K_COMB && lg[10].kind==K_COMB, "C05: averaging form: interpolate, size the buffer, prepare, evolve, contract twice, combine");
+    unsigned xid=0; for(unsigned k=0;k+1<NXG;k++) if(lg[0].b==&g_rho_s[k][nrh]) xid=k;
+    __CPROVER_assert(lg[0].b==&g_rho_s[xid][nrh] && lg[1].b==&g_rho_s[xid+1][nrh] && xid+1<S.nx && S.x[xid]<=xi && xi<=S.x[xid+1], "C05: averaging form: the two states are those of the nodes bracketing x");
+    __CPROVER_assert(SQ_SAME(lg[2].t,xi) && lg[2].idx==nrh && lg[3].a==lg[2].a && SQ_SAME(lg[4].t,xi) && lg[4].idx==nrh, "C05: averaging form: H0 is evaluated at x itself, and the buffer is sized for it");
+    __CPROVER_assert(lg[5].a==lg[4].a && lg[5].b==g_evolbuf && SQ_SAME(lg[5].t,S.t-S.t_ini) && SQ_SAME(lg[5].v,scale) && lg[5].c==&avr_obj, "C05: averaging form: PrepareEvolve(buffer, t-t_ini, scale, avr) on that H0");
+    __CPROVER_assert(lg[6].a==&buf.op && lg[6].b==&op && lg[6].c==g_evolbuf && lg[6].w==0, "C05: averaging form: the operator is evolved with the prepared buffer");
+    __CPROVER_assert(lg[7].a==&buf.op && lg[7].b==&g_rho_s[xid][nrh] && lg[8].a==&buf.op && lg[8].b==&g_rho_s[xid+1][nrh], "C05: averaging form: contracted with both bracketing states");
+    __CPROVER_assert(SQ_SAME(lg[9].t,lg[7].v) && SQ_SAME(lg[9].v,lg[0].t) && SQ_SAME(lg[10].t,lg[8].v) && SQ_SAME(lg[10].v,lg[1].t), "C05: averaging form: result = d1*f1 + d2*f2 with the interpolation weights");
+  } else __CPROVER_assert(nlog==0, "C05: averaging form: nothing is evaluated for a rejected x");
+  __CPROVER_assert(0,"REACH end of harness");
+}
+void h_GetExpectationValue_avg(void){
+  struct SQuIDS S; double xi; mk_grid(&S,&xi); struct SU_vector op; unsigned nrh=nondet_unsigned(), i=nondet_unsigned(); __CPROVER_assume(nrh<NRB && i<S.nx && i<NXB);
+  double scale=nondet_double(); int avr_obj;
+  double r=SQuIDS_GetExpectationValue_avg(&S,&op,nrh,i,scale,&avr_obj);
+  __CPROVER_assert(nlog==5 && lg[0].kind==K_H0 && SQ_SAME(lg[0].t,S.x[i]) && lg[0].idx==nrh, "C05: averaging node form: H0 at that node's x");
+  __CPROVER_assert(lg[1].kind==K_BUFSIZE && lg[1].a==lg[0].a && lg[2].kind==K_PREPAVG && lg[2].a==lg[0].a && lg[2].b==g_evolbuf && SQ_SAME(lg[2].t,S.t-S.t_ini) && SQ_SAME(lg[2].v,scale) && lg[2].c==&avr_obj,
+                   "C05: averaging node form: buffer sized for and prepared from that H0 with (t-t_ini, scale, avr)");
+  __CPROVER_assert(lg[3].kind==K_FASTEVOL && lg[3].b==&op && lg[3].c==g_evolbuf && lg[4].kind==K_DOT && lg[4].a==&g_rho_s[i][nrh] && lg[4].b==lg[3].a && SQ_SAME(r,lg[4].v),
+                   "C05: averaging node form: operator evolved with the buffer and contracted with the stored state of node i");
   __CPROVER_assert(0,"REACH end of harness");
 }
 void h_GetExpectationValue(void){
